@@ -244,21 +244,25 @@ def accessor_values(inst, T, z):
 
 
 def results_values(inst, T, z):
-    """extract_results() of a run whose solver answers the scaled image of z"""
+    """extract_results() of a run whose solver answers the scaled image of z, per named entry"""
     X = np.zeros(T["N"])
     X[T["idx"]] = z / T["nu"]
     sol = S.RecordingSolver(answer=lambda n: X)
     p = S.make_problem(inst, sol)
     with quiet_fd():
         p.optimize()
-    out = []
-    for m in range(inst["E"]):
-        res = p.extract_results(m)
-        for v in inst["vars"]:
-            out.append(np.asarray(res[v["name"]], dtype=float).ravel())
-            if v["kind"] == "state":
-                out.append(np.asarray(res["initial_der(%s)" % v["name"]], dtype=float).ravel())
-    return np.concatenate(out) if out else np.zeros(0)
+    res = [p.extract_results(m) for m in range(inst["E"])]
+    byname = {v["name"]: v for v in inst["vars"]}
+    out = np.zeros(len(T["keys"]))
+    for k, (m, nm, cc, i) in enumerate(T["keys"]):
+        r = np.asarray(res[0 if m == "c" else m][nm], dtype=float)
+        v = byname.get(nm)
+        if v is not None and v["size"] > 1:
+            r = r.reshape((-1, v["size"]))[i, cc]
+        else:
+            r = r.reshape(-1)[i]
+        out[k] = r
+    return out
 
 
 def model_phys_lines(inst):
@@ -374,6 +378,14 @@ def stream_pairs(c, n):
         xb = results_values(inst2, B, z)
         if not arr_close(xa, xb, rtol=1e-9, atol=1e-9):
             c.fail("extract_results of the same physical trajectory depends on the nominal", case)
+        # decode(encode(z)) = z on the real code: the results are the physical trajectory itself
+        for (xx, which) in ((xa, "first"), (xb, "second")):
+            if not arr_close(xx, z, rtol=1e-9, atol=1e-9):
+                k = int(np.argmax(~np.isclose(xx, z, rtol=1e-9, atol=1e-9)))
+                c.fail("extract_results is not nominal * decision vector for a named entry (results not in "
+                       "physical units)", case, {"variant": which, "entry": list(map(str, A["keys"][k])),
+                                                 "expected": float(z[k]), "got": float(xx[k])})
+        c.count(None, n=2 * len(z))
         # decoded results are the physical trajectory itself (named entries)
         # correspondence with the Lean model of the box
         yield inst, A, inst2, B
@@ -443,14 +455,16 @@ def run_gp(inst, goals_spec, record, fix_min=None):
     goals = []
     for gs in goals_spec:
         class G(Goal):
-            def function(self, pr, m, _v=gs["var"]):
-                return pr.state(_v)
+            def function(self, pr, m, _v=gs["var"], _s=gs.get("sign", 1.0)):
+                return _s * pr.state(_v)
 
         g = G()
         g.priority = gs["priority"]
         g.order = gs["order"]
         g.weight = gs["weight"]
         g.function_nominal = gs["nominal"]
+        if gs.get("relaxation"):
+            g.relaxation = gs["relaxation"]
         if gs["kind"] == "target":
             if gs.get("critical"):
                 g.critical = True
@@ -503,6 +517,7 @@ def run_gp(inst, goals_spec, record, fix_min=None):
 
 def goal_measure(gs, x):
     """physical achievement of a goal on the trajectory x: what its priority minimises, nominal free"""
+    x = gs.get("sign", 1.0) * x
     if gs["kind"] == "min":
         return float(np.sum(x ** gs["order"]))
     if gs.get("critical"):  # hard: measured as the worst violation (must be ~0 in both runs)
@@ -541,7 +556,16 @@ def stream_gp(c, n):
             cm = float(rng.randint(-6, -1))
             spec = [dict(priority=0, kind="target", critical=True, order=1, weight=1.0, nominal=1.0,
                          tmin=cm, tmax=cm + rng.choice([4.0, 9.0]), var="u0")] + spec
-        elif r < 0.85:
+        elif r < 0.7:
+            # a relaxed minimisation goal (unique minimiser: pointwise lowest trajectory above the
+            # target) and a later priority pushing the same quantity the other way: the retained bound
+            # must leave the physical slack `relaxation`, whatever the nominal
+            spec = [spec[0],
+                    dict(priority=2, kind="min", order=1, weight=1.0, nominal=1.0, var="x0",
+                         relaxation=rng.choice([0.5, 1.0, 2.0, 0.25])),
+                    dict(priority=3, kind="min", order=1, weight=1.0, nominal=1.0, var="x0", sign=-1.0)]
+            spec[0]["order"] = 1
+        elif r < 0.9:
             # a third priority, so that the value retained for the minimisation goal matters
             spec = spec + [dict(priority=3, kind="min", order=1, weight=1.0, nominal=1.0,
                                 var=("u0" if spec[1]["var"] == "x0" else "x0"))]
@@ -592,6 +616,14 @@ def stream_gp(c, n):
                 if j == k and any(g["kind"] == "min" and g["order"] == 1 for g in specs[0][:j]):
                     c.hit("gp/own-optimum-skipped (earlier LP minimiser not unique)")
                     continue
+                # an order-2 minimisation goal that is not fixed afterwards is only bounded from above
+                # per step (f_t <= f_t*): its sum of squares is not retained by construction, and the
+                # later optimum depends discontinuously on f_t* (solver tolerance decides), so nothing
+                # nominal-free can be compared there
+                if any(g["kind"] == "min" and g["order"] == 2 for g in specs[0][:max(j, k)]) and fix_min is False \
+                        and k > min(i for i, g in enumerate(specs[0]) if g["kind"] == "min" and g["order"] == 2):
+                    c.hit("gp/skipped (unfixed order-2 minimisation goal earlier)")
+                    continue
                 ma = goal_measure(specs[0][j], ra[1][specs[0][j]["var"]])
                 mb = goal_measure(specs[1][j], rb[1][specs[1][j]["var"]])
                 # LP runs (HiGHS, vertex solutions): 1e-6; interior-point runs (order-2 goals, IPOPT): the
@@ -605,7 +637,7 @@ def stream_gp(c, n):
             if gs["kind"] == "min":
                 for (sp, rr) in ((specs[0][k], ra), (specs[1][k], rb)):
                     lines.append(dict(op="goalobj", w=fr(sp["weight"]), nu=fr(sp["nominal"]), order=sp["order"],
-                                      f=[fr(float(x)) for x in rr[1][sp["var"]]]))
+                                      f=[fr(float(sp.get("sign", 1.0) * x)) for x in rr[1][sp["var"]]]))
                     meta.append((case, rr[2]))
     outs = c.model(lines) if lines else []
     if outs is not None:
